@@ -90,6 +90,13 @@ def execute(sc: dict, seed: int) -> dict:
                 k = rng.randrange(len(base["nodes"]))
                 subs.append(("stall", k, dict(base, faults=[{"site": "executor_pre", "kind": "stall", "node": k,
                                                              "seconds": rng.choice([1.5, 60.0, 3600.0])}])))
+            dflt = [(k2, p2) for k2, t2 in enumerate(truth) for p2, ch2 in t2["channels"].items()
+                    if ch2 == "default" and not t2["generated"] and p2 not in base["context"] and not any(p2 in u["creates"] for u in truth)]
+            if dflt and rng.random() < 0.35:
+                # the context holds the parameter's name with the value None: the context outranks the signature default, so None
+                # is what the processor receives (it may well choke on it) and what the SER must report, channel "context"
+                k2, p2 = rng.choice(dflt)
+                subs.append(("none_in_context_masks_default", k2, dict(base, faults=[], context=dict(base["context"], **{p2: None}))))
             if sc.get("only") is not None:
                 subs = [s for s in subs if s[0] == sc["only"]] or subs[:1]
             for i, (kind, k, s) in enumerate(subs):
@@ -112,7 +119,9 @@ def execute(sc: dict, seed: int) -> dict:
                     stats[f"fault.{kind}"] = stats.get(f"fault.{kind}", 0) + 1
                 if kind == "write_then_fail":
                     stats["probe.node_wrote_context_then_raised"] = stats.get("probe.node_wrote_context_then_raised", 0) + 1
-                tr = truth if kind in ("none", "stall", "leaf_exception", "unresolvable") else None
+                if kind == "none_in_context_masks_default":
+                    stats["probe.none_in_context_masks_default"] = stats.get("probe.none_in_context_masks_default", 0) + 1
+                tr = truth if kind in ("none", "stall", "leaf_exception", "unresolvable", "none_in_context_masks_default") else None
                 vs = oracles.check_c07(rr, w, s, tr, kind, tz, book)
                 for v in vs:
                     v["sub"] = [kind, k]
